@@ -118,13 +118,41 @@ class Index:
             d = self._desc[ev] = frozenset(out)
         return d
 
+    def root_of(self, hi: int) -> int:
+        seen = set()
+        hs = self.sc['handlers']
+        while 'same_as' in hs[hi] and hi not in seen:
+            seen.add(hi)
+            hi = hs[hi]['same_as']
+        return hi
+
     def handlers_for(self, ev: int, bus: int):
+        """Distinct handler FUNCTIONS registered on `bus` under a pattern matching the event: one function object registered under
+        two matching patterns (or twice) is one handler of that bus and is delivered the event once."""
         t = self.evtype.get(ev)
-        return [hi for hi, h in enumerate(self.sc['handlers']) if h['bus'] == bus and pat_matches(h['pat'], t)]
+        out = []
+        for hi, h in enumerate(self.sc['handlers']):
+            if h['bus'] == bus and pat_matches(h['pat'], t):
+                r = self.root_of(hi)
+                if r not in out:
+                    out.append(r)
+        return out
 
     def via_forward(self, ev: int, bus: int) -> bool:
+        """F4 applies to `bus` for this event: the event was accepted by several buses (forwarding, or user code dispatching the
+        same object to a second bus) and `bus` is not the one that finished processing it first. Results for a bus are created only
+        when that bus starts processing, so everything such a bus contributes arrives after the event first looked complete."""
         r = self.accepted.get((ev, bus))
-        return r is not None and r['by'] == 'F'
+        if r is None:
+            return False
+        buses = {b for (e, b) in self.accepted if e == ev}
+        if len(buses) < 2:
+            return False
+        ends = [(p['e']['seq'], b) for (e, b), lst in self.procs_by.items() if e == ev for p in lst if p['e'] is not None]
+        if ends:
+            return bus != min(ends)[1]
+        first = min((q['seq'], b) for (e, b), q in self.accepted.items() if e == ev)
+        return bus != first[1]
 
     def tainted_inv(self, inv, depth=0) -> bool:
         """Invocation runs on a bus its event reached by forwarding, or lies causally below such a one."""
@@ -652,6 +680,9 @@ def c09(ix: Index) -> None:
             want = [(i['ev'], f"B{i['bus']}.h{i['h']}")]
         else:
             want = []
+        n_disp = sum(1 for r in ix.R if r['k'] == 'disp_ok' and r['ev'] == ev and r['by'] == by) if isinstance(by, int) else 0
+        if want and n_disp > 1 and got and set(got) == set(want) and len(got) <= n_disp:
+            continue  # the same child object dispatched k times (to several buses) by one invocation is listed up to k times
         if sorted(got) != sorted(want):
             clause = 'rejected-dispatch-recorded-as-child' if ev not in accepted_evs and got else 'children-attribution'
             ix.v('C09', clause, None, ev=ev, got=got, want=want)
@@ -850,8 +881,12 @@ def c16(ix: Index) -> None:
         ix.C['c16_stops'] += 1
         ret = next((r for r in ix.R if r['k'] == 'stop_ret' and r['call'] == c['call'] and r['by'] == c['by']), None)
         if ret is None:
+            if isinstance(c['by'], int):
+                x = ix.exit.get(c['by'])
+                if x is not None and x['out'] == 'cancel':
+                    continue  # a handler that stops the bus it runs on is cancelled together with that bus's run loop
             if _actor_fate(ix, c['by']) != 'cancelled':
-                ix.v('C16', 'stop-never-returns', None, bus=c['bus'], timeout=c['timeout'])
+                ix.v('C16', 'stop-never-returns', None, bus=c['bus'], timeout=c['timeout'], by=c['by'])
             continue
         # bounded: the optional idle wait (timeout) + 0.1 s grace for the run loop; blocking (sync) user code
         # that holds the loop during that window is added because nothing can run while it blocks
